@@ -323,3 +323,47 @@ pub fn counters_json() -> String {
     s.push('}');
     s
 }
+
+// ---------------------------------------------------------------------------------------------
+// Run-wide statistics (emitted in the shard summary as x_<name> sums and xs_<name> sets)
+// ---------------------------------------------------------------------------------------------
+
+static STATS: Mutex<BTreeMap<String, u64>> = Mutex::new(BTreeMap::new());
+static MAXES: Mutex<BTreeMap<String, u64>> = Mutex::new(BTreeMap::new());
+static SETS: Mutex<BTreeMap<String, std::collections::BTreeSet<u64>>> = Mutex::new(BTreeMap::new());
+
+pub fn stat_add(name: &str, n: u64) {
+    let mut g = STATS.lock().unwrap_or_else(|e| e.into_inner());
+    *g.entry(name.to_string()).or_insert(0) += n;
+}
+
+pub fn stat_max(name: &str, n: u64) {
+    let mut g = MAXES.lock().unwrap_or_else(|e| e.into_inner());
+    let e = g.entry(name.to_string()).or_insert(0);
+    if n > *e {
+        *e = n;
+    }
+}
+
+pub fn set_insert(name: &str, v: u64) {
+    let mut g = SETS.lock().unwrap_or_else(|e| e.into_inner());
+    let s = g.entry(name.to_string()).or_default();
+    if s.len() < 20000 {
+        s.insert(v);
+    }
+}
+
+pub fn stats_extra() -> Vec<(String, String)> {
+    let mut out = Vec::new();
+    for (k, v) in STATS.lock().unwrap_or_else(|e| e.into_inner()).iter() {
+        out.push((format!("x_{k}"), format!("{v}")));
+    }
+    for (k, v) in MAXES.lock().unwrap_or_else(|e| e.into_inner()).iter() {
+        out.push((format!("xm_{k}"), format!("{v}")));
+    }
+    for (k, v) in SETS.lock().unwrap_or_else(|e| e.into_inner()).iter() {
+        let items: Vec<String> = v.iter().map(|x| format!("{x}")).collect();
+        out.push((format!("xs_{k}"), format!("[{}]", items.join(","))));
+    }
+    out
+}
